@@ -44,8 +44,10 @@ func newEntry(key, value []byte, valueType ValueType, seqNum uint64) *entry {
 	keyCopy := make([]byte, len(key))
 	copy(keyCopy, key)
 
+	// A nil value marks a deletion on the read path, so a value entry always
+	// carries a non-nil (possibly empty) value
 	var valueCopy []byte
-	if value != nil {
+	if value != nil || valueType == TypeValue {
 		valueCopy = make([]byte, len(value))
 		copy(valueCopy, value)
 	}
